@@ -34,7 +34,11 @@ LEVEL_TEXT = ('Theorems over Gallina models of all storage back-ends for every h
               'load, is_cached and remove (unbounded length, any addresses satisfying the stated validity conditions): the '
               'outputs equal those of the abstract map address -> bytes.  The address -> path / bundle slot / row key '
               'functions are generated from the Python source; their injectivity is proved on the generated definitions.')
-LEVEL_NOTE = ('Trusted: Coq kernel, translator, hand-written operational models (FileCache.v, SqlCache.v) validated by the '
+LEVEL_NOTE = ('Proved in full: file cache (6 layouts x 3 link modes x dimensions) and compact v1/v2 for all histories. '
+              'PARTIAL for the four sqlite back-ends: refinement proved for histories without bulk loads, the batching of '
+              'the bulk load proved on the extracted constants; that the bulk load equals the per-tile loads (and the '
+              'per-level dispatch of it) is validated by the correspondence check only (incl. requests > 333 tiles). '
+              'Trusted: Coq kernel, translator, hand-written operational models (FileCache.v, SqlCache.v) validated by the '
               'correspondence check; SQLite, the file system and the image codecs are modelled, not verified; the byte '
               'level of compact bundles belongs to C19 (here: keyed store over bundle file and index slot). Operations get '
               'fresh Tile objects (the location / stored / source caching on a re-used Tile object is not modelled).')
